@@ -70,6 +70,43 @@ CHECKS = {
         'outside': ['contract call trees executed by the EVM interpreter', 'effects inside SDK staking/distribution keepers', 'more than 2 operations per frame, more than 2 nesting levels'],
         'assumptions': SDB_ASSUMPTIONS,
     },
+    'C12': {
+        'pkgs': ['./zzverif/hcpc'],
+        'harnesses': [
+            {'fn': C + 'H_C12_1_StaticContext', 'over': {'max-paths': 200000}, 'must_reach': ['staticcall-rejected', 'write-succeeds-outside-static-context']},
+            {'fn': C + 'H_C12_2_ReadOnlyMethods'},
+            {'fn': C + 'H_C12_3_MethodTable'},
+        ],
+        'level_text': 'Bounded symbolic execution of the fork\'s real EVM.Call / StaticCall / DelegateCall / CallCode -> RunPrecompiledContract -> RunCustom -> the repo\'s method wrapper and ERC-20 executors (precompiles wired by the real NewEVM), with the interpreter\'s static flag as a symbolic input (set through an overlay hook, as an enclosing STATICCALL frame sets it): z3 decides for every state-changing method, call kind and symbolic arguments that a read-only context leaves bank balances, supply, allowances and logs unchanged; read-only methods never write; concrete enumeration of the real registry shows every state-changing method of all three contract types charges gas and selectors are unique.',
+        'level_note': 'Known finding C12-F7 (open, in the go-ethereum fork): the static flag of an ancestor frame is not honoured for custom precompiles reached by CALL/DELEGATECALL/CALLCODE. Staking write methods are covered only by the method-table enumeration (their bodies need the SDK staking keeper).',
+        'bounds': ['5 state-changing ERC-20 methods x 4 call kinds x static-ancestor flag, caller in 3 accounts, address argument in {3 accounts, zero, cpc module}, amount < 2^256, balances in [1, 2^128)', 'call depth 1 below the flag (deeper nesting rests on go-ethereum\'s invariant that the flag stays set for child frames)'],
+        'outside': ['opcode-level write protection for ordinary contracts (upstream go-ethereum)', 'staking precompile bodies'],
+        'assumptions': TX_ASSUMPTIONS + ['go-ethereum opCall: under a static ancestor a CALL carries value 0 (instructions.go; not executed)'],
+    },
+    'C13': {
+        'pkgs': ['./zzverif/htx'],
+        'harnesses': [
+            {'fn': T + 'H_C13_1_Block2', 'over': {'max-decisions': 3000, 'max-paths': 100000}, 'must_reach': ['second-tx-has-logs-after-logs']},
+            {'fn': T + 'H_C13_1b_Block3', 'over': {'max-decisions': 5000, 'max-paths': 400000}, 'thorough_only': True},
+        ],
+        'level_text': 'Bounded symbolic execution of a block of 2 (thorough: 3) Ethereum transactions of 8 outcome classes each (call with 0-2 logs, revert, VM error, failure outside EVM execution, creation ok / failed / self-destructing constructor, plain transfer) through the real EVM lane (ante bookkeeping, message server, ApplyMessageWithConfig receipt/bloom/transient code) and the real x/evm EndBlock; every gas-used figure is symbolic. z3 decides: transaction indices 0,1,2 in order, first-log index = logs emitted before, cumulative gas = running sum (gas limit for discarded executions), status 1 iff no VM error, created address reported iff creation succeeded and equal to CreateAddress(sender, nonce), receipt bloom = bloom of its own logs, one receipt per admitted transaction, EndBlock never panics.',
+        'level_note': 'Bloom bit arithmetic is recomputed by a model using Keccak over concrete addresses/topics (native replay uses go-ethereum\'s); Cosmos transactions interleaved in the block are not modelled (they do not touch the x/evm transient store).',
+        'bounds': ['2 transactions (quick), 3 (thorough); 8 classes each; symbolic gas consumed by the contract; concrete prices/balances'],
+        'outside': ['RLP bytes of receipts', 'more than 2 logs per transaction, more than 3 transactions'],
+        'assumptions': TX_ASSUMPTIONS,
+    },
+    'C17': {
+        'pkgs': ['./zzverif/hcpc'],
+        'harnesses': [
+            {'fn': C + 'H_C17_1_RegistryStep', 'must_reach': ['succeeded', 'failed']},
+            {'fn': C + 'H_C17_3_Exposure', 'must_reach': ['enabled', 'disabled']},
+        ],
+        'level_text': 'Inductive step by bounded symbolic execution of the real x/cpc message server (DeployErc20Contract, DeployStakingContract, UpdateParams) from registry states built by the real keeper API (optional existing ERC-20 and staking contracts, symbolic whitelist, optionally after an UpdateParams executed on a discarded state branch): the registry invariant (unique addresses, denomination index <-> metadata, one ERC-20 per denomination) is preserved, deployments need a whitelisted sender / positive supply / unused denomination and get a fresh address, failures change nothing, the protocol version never decreases; and of the real Keeper.NewEVM wiring: a registered enabled contract answers, a disabled one cannot be executed, an unregistered address is not a precompile, for top-level messages with 0/2/5 bytes of data, calls and creations.',
+        'level_note': 'Exposure is checked for the NewEVM construction used by deliver, check (993e), simulate and query paths alike (they all call Keeper.NewEVM); the whitelist oracle is what the harness wrote to the committed state, not what the keeper reports.',
+        'bounds': ['<= 2 existing contracts, whitelist in {none, 1, 2 addresses}, 4 senders, 3 denominations (one without supply), protocol version in {0,1,2}', '1 message'],
+        'outside': ['governance voting', 'go-ethereum\'s standard precompiles', 'genesis flag combinations (C18 harnesses)'],
+        'assumptions': TX_ASSUMPTIONS,
+    },
     'C15': {
         'pkgs': ['./zzverif/hsdb'],
         'harnesses': [
@@ -133,6 +170,7 @@ CHECKS = {
         'pkgs': ['./zzverif/hcpc'],
         'harnesses': [
             {'fn': C + 'H_C10_1_OneCall', 'over': {'max-paths': 200000}, 'must_reach': ['call1-success-path', 'call1-failure-path']},
+            {'fn': C + 'H_C10_3_Views', 'must_reach': ['after-successful-transfer']},
             {'fn': C + 'H_C10_2_TwoCalls', 'over': {'max-paths': 600000}, 'thorough_only': True},
         ],
         'level_text': 'Inductive step by bounded symbolic execution: from an arbitrary symbolic bank ledger and allowance table, one state-changing ERC-20 call (transfer, transferFrom, approve, burn, burnFrom; caller and address arguments over {3 accounts, zero address, cpc module account}; amount in [0, 2^256)) is run through the fork\'s real EVM.Call -> RunPrecompiledContract -> RunCustom -> the repo\'s wrapper and executors (precompiles wired by the real Keeper.NewEVM), and compared by z3 with a reference ERC-20 ledger: success iff the reference allows, exact amounts, exactly one matching log, allowance rule incl. the infinite allowance, nothing else touched, failure changes nothing; the views equal bank state, also under STATICCALL.',
